@@ -44,7 +44,7 @@ class Ctx:
         self.runs += 1
         self.log.update(res.trace_digest().encode())
         self.log.update(("|%s|%s|" % (res.mode, res.status)).encode())
-        self.log.update(res.norm_output().encode())
+        self.log.update(res.norm_output().encode("utf-8", "surrogateescape"))
         self.ops += len(res.ops)
         for k, v in res.fired_counts().items():
             self.fired[k] += v
@@ -97,6 +97,9 @@ def _worker(args):
         if per[sig] <= 2:
             kept.append(v)
     counts = dict(per)
+    for v in kept:
+        v["what"] = core.safe(v.get("what", ""))
+        v["signature"] = core.safe(v["signature"])
     if unconfirmed and not err:
         err = "unconfirmed violation(s) %s: reported once, not reproduced on immediate re-execution of the same scenario" % unconfirmed
     st = ctx.export()
